@@ -11,9 +11,9 @@ import (
 	"os"
 	"runtime"
 	"runtime/debug"
-	"sync/atomic"
 	"sort"
 	"strings"
+	"sync/atomic"
 	"time"
 
 	"verif/sim/choice"
@@ -284,13 +284,20 @@ type WorkerOut struct {
 	HarnessErrs []string          `json:"harness_errors"`
 	WallS       float64           `json:"wall_s"`
 	Draws       int               `json:"draws"`
+	SweepRuns   int               `json:"sweep_runs"`
+	SweepTotal  int               `json:"sweep_total"`
 }
+
+// Enumerations maps a scenario to a function producing the tapes of a
+// complete systematic sweep, executed by worker 0 before the seeded search.
+var Enumerations = map[string]func() [][]uint32{}
 
 // WorkerCfg configures the loop.
 type WorkerCfg struct {
 	Opts
 	Seed      uint64
 	Worker    int
+	Workers   int
 	Duration  time.Duration
 	MaxRuns   int
 	ShrinkFor time.Duration
@@ -369,16 +376,33 @@ func Worker(sc Scenario, cfg WorkerCfg) WorkerOut {
 	states := map[string]bool{}
 	seenViol := map[string]bool{}
 	var sFree, sFault, sLong *sample
+	var sweep [][]uint32
+	if f := Enumerations[cfg.Scenario]; f != nil {
+		all := f()
+		// the sweep is split over the workers
+		for i, t := range all {
+			if cfg.Workers <= 1 || i%cfg.Workers == cfg.Worker {
+				sweep = append(sweep, t)
+			}
+		}
+		out.SweepTotal = len(all)
+	}
 	for k := 0; ; k++ {
 		if cfg.MaxRuns > 0 && k >= cfg.MaxRuns {
 			break
 		}
-		if cfg.Duration > 0 && time.Since(start) > cfg.Duration {
+		if k >= len(sweep) && cfg.Duration > 0 && time.Since(start) > cfg.Duration {
 			break
 		}
 		runSeed := choice.Mix(cfg.Seed, uint64(cfg.Worker), uint64(k))
 		wdMark(runSeed, "run")
-		res := Execute(sc, choice.New(runSeed), cfg.Opts)
+		var res Result
+		if k < len(sweep) {
+			res = Execute(sc, choice.Replay(sweep[k]), cfg.Opts)
+			out.SweepRuns++
+		} else {
+			res = Execute(sc, choice.New(runSeed), cfg.Opts)
+		}
 		out.Runs++
 		out.Draws += len(res.Tape)
 		if len(out.Seeds) < 8 {
